@@ -41,8 +41,26 @@ const ADV: usize = 3;
 const ROUTER: usize = 5;
 /// native denoms (plain ones: with a cw20 LP token the vault derives the LP ticker from the denom, and
 /// cw20-base refuses tickers outside [a-zA-Z-]{3,12}, so IBC / token-factory denoms cannot get a vault here)
-const DENOMS: [&str; 4] = ["uasset", "uluna", "uwhale", "uatom"];
-const NOVAULT: &str = "unovault";
+/// the vaults' native denoms and the denom no vault knows, per world (`dn=<k>` on the init line; the model does
+/// not look at names): plain; IBC vouchers (upper-case hex), a case pair and the lower-case twin of the first
+/// voucher as the unknown denom; prefixes of each other
+const DENOM_SETS: [([&str; 4], &str); 3] = [
+    (["uasset", "uluna", "uwhale", "uatom"], "unovault"),
+    (
+        [
+            "ibc/27394FB092D2ECCD56123C74F36E4C1F926001CEADA9CA97EA622B25F41E5EB2",
+            "uLuna",
+            "uluna",
+            "ibc/B3504E092456BA618CC28AC671A71FB08C6CA0FD0BE7C8A5B5A3E2DD933CC9E4",
+        ],
+        "ibc/27394fb092d2eccd56123c74f36e4c1f926001ceada9ca97ea622b25f41e5eb2",
+    ),
+    (["uusd", "uusdc", "uusdcx", "uus"], "uusdcxx"),
+];
+static DN: std::sync::atomic::AtomicUsize = std::sync::atomic::AtomicUsize::new(0);
+fn dset() -> &'static ([&'static str; 4], &'static str) {
+    &DENOM_SETS[DN.load(std::sync::atomic::Ordering::Relaxed) % DENOM_SETS.len()]
+}
 
 type Loans = Vec<(usize, u128)>;
 
@@ -301,7 +319,7 @@ impl World {
             .unwrap();
         accts[ROUTER] = router.clone();
         for a in accts[..4].iter() {
-            app.sudo(cw_multi_test::SudoMsg::Bank(cw_multi_test::BankSudo::Mint { to_address: a.to_string(), amount: coins(1u128 << 100, NOVAULT) }))
+            app.sudo(cw_multi_test::SudoMsg::Bank(cw_multi_test::BankSudo::Mint { to_address: a.to_string(), amount: coins(1u128 << 100, dset().1) }))
                 .unwrap();
         }
         let mut tokens = vec![];
@@ -313,13 +331,13 @@ impl World {
                     if bals[j][i] > 0 {
                         app.sudo(cw_multi_test::SudoMsg::Bank(cw_multi_test::BankSudo::Mint {
                             to_address: a.to_string(),
-                            amount: coins(bals[j][i], DENOMS[j]),
+                            amount: coins(bals[j][i], dset().0[j]),
                         }))
                         .unwrap();
                     }
                 }
                 tokens.push(None);
-                AssetInfo::NativeToken { denom: DENOMS[j].into() }
+                AssetInfo::NativeToken { denom: dset().0[j].into() }
             } else {
                 let init: Vec<Cw20Coin> = accts
                     .iter()
@@ -391,7 +409,7 @@ impl World {
                     )
                     .ok()?;
                 }
-                let funds = if kinds[j] == 0 { coins(d, DENOMS[j]) } else { vec![] };
+                let funds = if kinds[j] == 0 { coins(d, dset().0[j]) } else { vec![] };
                 app.execute_contract(accts[u].clone(), vault.clone(), &vmsg::ExecuteMsg::Deposit { amount: d.into() }, &funds).ok()?;
             }
             vaults.push(vault);
@@ -411,7 +429,7 @@ impl World {
 
     fn bal(&self, j: usize, a: &Addr) -> u128 {
         match &self.tokens[j] {
-            None => self.app.wrap().query_balance(a, DENOMS[j]).unwrap().amount.u128(),
+            None => self.app.wrap().query_balance(a, dset().0[j]).unwrap().amount.u128(),
             Some(t) => cw20_bal(&self.app, t, a),
         }
     }
@@ -437,25 +455,25 @@ impl World {
             let ti: cw20::TokenInfoResponse = q.query_wasm_smart(&self.lps[j], &Cw20QueryMsg::TokenInfo {}).unwrap();
             o.sup.push(ti.total_supply.u128());
         }
-        o.junk = self.accts.iter().chain(self.vaults.iter()).map(|a| q.query_balance(a, NOVAULT).unwrap().amount.u128()).collect();
+        o.junk = self.accts.iter().chain(self.vaults.iter()).map(|a| q.query_balance(a, dset().1).unwrap().amount.u128()).collect();
         o
     }
 
     /// the coins of a stray-coin suffix: sel < nv the native denom of vault sel's asset, sel = nv the denom without a vault
     fn stray_coins(&self, stray: Stray) -> Vec<Coin> {
         match stray {
-            Some((sel, n)) if sel < self.nv => coins(n, DENOMS[sel]),
-            Some((_, n)) => coins(n, NOVAULT),
+            Some((sel, n)) if sel < self.nv => coins(n, dset().0[sel]),
+            Some((_, n)) => coins(n, dset().1),
             None => vec![],
         }
     }
 
     fn asset_info(&self, j: usize) -> AssetInfo {
         if j >= self.nv {
-            return AssetInfo::NativeToken { denom: NOVAULT.into() };
+            return AssetInfo::NativeToken { denom: dset().1.into() };
         }
         match &self.tokens[j] {
-            None => AssetInfo::NativeToken { denom: DENOMS[j].into() },
+            None => AssetInfo::NativeToken { denom: dset().0[j].into() },
             Some(t) => AssetInfo::Token { contract_addr: t.to_string() },
         }
     }
@@ -476,7 +494,7 @@ impl World {
 
     fn pay_msg(&self, j: usize, to: &Addr, n: u128) -> CosmosMsg {
         match &self.tokens[j] {
-            None => BankMsg::Send { to_address: to.to_string(), amount: coins(n, DENOMS[j]) }.into(),
+            None => BankMsg::Send { to_address: to.to_string(), amount: coins(n, dset().0[j]) }.into(),
             Some(t) => WasmMsg::Execute {
                 contract_addr: t.to_string(),
                 msg: to_json_binary(&Cw20ExecuteMsg::Transfer { recipient: to.to_string(), amount: n.into() }).unwrap(),
@@ -716,6 +734,7 @@ impl VaultChain {
         let mut bals: Vec<Vec<u128>> = vec![];
         let mut deps: Vec<Vec<u128>> = vec![];
         let grid = |s: &str| -> Option<Vec<Vec<u128>>> { s.split(',').map(|r| r.split(':').map(|x| x.parse().ok()).collect()).collect() };
+        DN.store(0, std::sync::atomic::Ordering::Relaxed);
         for t in &ws[2..] {
             let (k, v) = t.split_once('=')?;
             match k {
@@ -724,6 +743,7 @@ impl VaultChain {
                 "fees" => fees = grid(v)?.into_iter().map(|r| if r.len() == 3 { Some((r[0], r[1], r[2])) } else { None }).collect::<Option<_>>()?,
                 "bals" => bals = grid(v)?,
                 "deps" => deps = grid(v)?,
+                "dn" => DN.store(v.parse().ok()?, std::sync::atomic::Ordering::Relaxed),
                 _ => return None,
             }
         }
@@ -1132,11 +1152,12 @@ impl VaultChain {
             }
             let ks: Vec<String> = kinds.iter().map(|k| k.to_string()).collect();
             return Some(format!(
-                "init vaultchain nv={nv} kinds={} fees={} bals={} deps={}",
+                "init vaultchain nv={nv} kinds={} fees={} bals={} deps={} dn={}",
                 ks.join(","),
                 fees.join(","),
                 bals.join(","),
-                deps.join(",")
+                deps.join(","),
+                rng.below(DENOM_SETS.len() as u64)
             ));
         }
         if step > self.len {
